@@ -32,6 +32,19 @@ CHECKS = {
    note=TB + 'e{m,n} with run-time m > n is outside the property (constructor rejects it for literals); listed in DESIGN.md.',
    technique='Coq refinement proof + differential correspondence via extracted OCaml model',
    ref='DESIGN.md §6 C03'),
+ 'C04': dict(
+   text='Coq theorems: the refinement theorem covers grammars with ignore declarations (the rule call to the synthetic '
+        '_ignored rule after every flagged literal is part of model and spec); C04_flagged_*_literal: a flagged literal means '
+        'exactly literal << _ignored (skipping immediately after a successful match, never showing in the value, nothing '
+        'consumed when the literal fails), C04_unflagged_literal: no other point consults the ignore rule. The translator\'s '
+        'rewriting itself (flag on every literal, _ignored = Skip(ignore rules), start body/first class member prefixed) is '
+        'checked on every run on the exported expression objects and by comparing each generated grammar with the same '
+        'grammar in which the skipping is written out explicitly (l << Skip(I), start = Skip(I) >> body); lengthened '
+        'ignorable runs are run as metamorphic pairs.',
+   note=TB + 'The insensitivity claim (lengthening an ignored run changes no value) is decided by metamorphic differential '
+        'runs only; its simulation proof is not done (stated in DESIGN.md).',
+   technique='Coq refinement proof + lemmas on flagged literals; differential check of the translator rewriting against the explicit form',
+   ref='DESIGN.md §6 C04'),
  'C08': dict(
    text='Coq theorem C08_three_outcomes: for every well-formed grammar, every parameterless rule or class used as entry '
         'point, every text, start offset and value of fullparse, the model of _run\'s tail and _finalize_parse_info returns the '
@@ -43,6 +56,17 @@ CHECKS = {
    note=TB + 'The pos=k vs text[k:] shift law is checked differentially only so far (no theorem yet); inline Python is assumed not to raise.',
    technique='Coq proof (three-outcomes theorem from the refinement theorem) + differential correspondence through the public API',
    ref='DESIGN.md §6 C08'),
+ 'C10': dict(
+   text='Coq theorems: C10_span_exact (the (start,end) stored on every instance by the generated code is the specification\'s: '
+        'where the class match began / the position after its last member incl. skipped ignorable text — part of the refinement '
+        'theorem), C10_nested (every span inside the consumed range and inside its parent\'s span; lookahead/Backtrack aside), '
+        'C10_finalised_span (conversion to (index,line,column) of start and last consumed offset). Sibling order/disjointness is '
+        'judged on the implementation\'s results by an executable Coq predicate (SpanSpec.spans_ordered, extracted); its theorem '
+        'is not yet proved. Correspondence: nested/repeated/optional/separated classes, memo reuse, templates, ignore '
+        'declarations, multi-line input, non-zero start offsets; raw and finalised spans of every instance compared.',
+   note=TB + 'conversion exactly once for instances shared through the memo is covered by correspondence only (object identity is not in the model).',
+   technique='Coq refinement + span containment proofs; extracted executable span predicate as judge; differential correspondence',
+   ref='DESIGN.md §6 C10'),
  'C09': dict(
    text='Coq theorems (unbounded: every text, line length, column) that the model of _map_index_to_line_and_column/'
         '_extract_excerpt/_caret_at gives line = 1 + newlines before the index, column = 1 + offset in line, a one-line '
